@@ -15,7 +15,7 @@ from ..values import (Const, Sym, CRef, FRef, MRef, ERef, Bound, Obj, Tup,
                       App, New, Raise)
 from ..interp import Interp, Hooks
 from ..formulas import signatures, LANGS
-from ..report import Finding, RuleResult, floor
+from ..report import Finding, RuleResult, floor, Attempts
 from . import c09
 
 PROP = 'C10'
@@ -347,9 +347,11 @@ def rule_gr5(prog):
 
 def run(prog, tier, seed):
     G = c09.grammars(prog)
-    r1 = c09.rule_rt3(prog, G, PROP, 'R-GR-1')
-    r2 = c09.rule_rt2(prog, G, PROP, 'R-GR-2')
-    results = [r1, r2, rule_gr3(prog, G), rule_gr4(prog, G), rule_gr5(prog)]
+    T = Attempts()
+    r1 = T(c09.rule_rt3, prog, G, PROP, 'R-GR-1')
+    r2 = T(c09.rule_rt2, prog, G, PROP, 'R-GR-2')
+    results = T.results(r1, r2, T(rule_gr3, prog, G), T(rule_gr4, prog, G),
+                        T(rule_gr5, prog))
     expl = ('Every grammar (text obtained by abstract interpretation, '
             'productions expanded by lark) is typed: the least fixpoint of '
             'the possible root operators per nonterminal shows that no '
@@ -368,4 +370,4 @@ def run(prog, tier, seed):
                    'on malformed input', 'C08 signature table',
                    'pos within the input is produced by lark (run-time '
                    'value, not decided)']
-    return results, expl, assumptions, {}
+    return results, expl, assumptions, T.extra()
